@@ -266,8 +266,14 @@ func main() {
 			o.Status, hx.Z(int64(o.Ps)), hx.B(o.Big), hx.List(logs), o.Kind, o.Parts), js)
 		c.Sample(js)
 		honest := uc.Declared == -1 || uc.Declared == uc.Size
+		// "automatic part sizing keeps n within the 3999-part limit": judged on the plan (declared size) and,
+		// for streams, on the parts actually sent. Known finding: not kept above 3999 x 512 KiB and for streams.
+		if uc.Auto && o.Status == 0 && (o.Tp > partsLimit || (uc.Declared == -1 && o.Parts > partsLimit)) {
+			c.Violate("auto-sizing-exceeds-parts-limit-for-huge-or-unknown-size",
+				fmt.Sprintf("%+v: automatic sizing chose %d-byte parts and the upload went on with %d parts (limit %d)", uc, o.Ps, max(o.Tp, o.Parts), partsLimit), sh, ix, uc)
+		}
 		if !honest || uc.ErrAt >= 0 {
-			return // the property speaks about sources of the declared size and retryable answers
+			return // the rest of the property speaks about sources of the declared size and retryable answers
 		}
 		bad := func(sig, f string, a ...interface{}) {
 			c.Violate(sig, fmt.Sprintf("%+v: ", uc)+fmt.Sprintf(f, a...), sh, ix, uc)
@@ -514,6 +520,9 @@ func main() {
 	large := []int64{16*mib + 1}
 	if c.Thorough() {
 		large = append(large, 64*mib, int64(partsLimit)*128*kib+1, 4<<30)
+		// a stream of unknown size longer than 3999 default parts (known finding: no sizing, no check)
+		uc := ucase{Auto: true, Declared: -1, Size: int64(partsLimit)*128*kib + 1, Threads: 8, ErrAt: -1, Seed: c.Rng.U64()}
+		one("large-stream", uc)
 	}
 	for _, sz := range large {
 		uc := ucase{Auto: true, Declared: sz, Size: sz, Threads: 8, PFalse: 2, PFlood: 2, MaxRej: 2, ErrAt: -1, Seed: c.Rng.U64()}
